@@ -391,9 +391,15 @@ func (c *genCtx) simpleSeq(depth int) *Expr {
 			}
 		}
 		l := c.leaf()
-		if i == 0 || rapid.Bool().Draw(c.t, "trapcap") {
+		switch {
+		case i > 0 && c.draw(0, 4, "traprep") == 0:
+			// a completed repetition of captures inside the attempt: ( @x+ ... | ... )
+			g := Group(rapid.SampledFrom([]string{"+", "*", "+"}).Draw(c.t, "trapmod"), Cap(l))
+			g.Style = c.draw(0, 5, "gstyle")
+			kids = append(kids, g)
+		case i == 0 || rapid.Bool().Draw(c.t, "trapcap"):
 			kids = append(kids, Cap(l))
-		} else {
+		default:
 			kids = append(kids, l)
 		}
 	}
